@@ -7,6 +7,9 @@ import witness
 CRATE = os.path.join(WORK, "kani-crate")
 TARGET = os.path.join(WORK, "kani-target")
 GEN = os.path.join(WORK, "kani-gen")
+PLAYBACK_MODS = ["c01", "c03", "c04", "c05", "c14", "c15", "c17", "c18"]
+PLAYBACK_EMPTY = "// concrete playback tests are written here by the runner\n"
+PLAYBACK_LOCK = threading.Lock()
 KANI_FLAGS = ["-Z", "stubbing", "-Z", "function-contracts", "-Z", "unstable-options"]
 
 
@@ -39,9 +42,10 @@ def prepare(log):
     tp = os.path.join(GEN, "libm_table.rs")
     if not os.path.exists(tp) or open(tp).read() != txt:
         open(tp, "w").write(txt)
-    pb = os.path.join(GEN, "playback.rs")
-    if not os.path.exists(pb):
-        open(pb, "w").write("// concrete playback tests are written here by the runner\n")
+    for m in PLAYBACK_MODS:
+        pb = os.path.join(GEN, f"playback_{m}.rs")
+        if not os.path.exists(pb):
+            open(pb, "w").write(PLAYBACK_EMPTY)
     return CRATE
 
 
@@ -168,20 +172,23 @@ def playback(h, log):
     inputs = [{"value": v.strip(), "bytes": b.strip()} for v, b in vals]
     wit = {"found": True, "engine": "kani --concrete-playback", "harness": name, "inputs": inputs[:40],
            "playback_test": test[:6000]}
-    # native replay: the generated test calls the harness natively (no stubs: the real libm is used)
-    pb = os.path.join(GEN, "playback.rs")
-    open(pb, "w").write(test + "\n")
+    # native replay: the generated test calls the harness natively (no stubs: the real libm is used);
+    # it is written into the include file of the harness's own module for the duration of the replay
+    mod = name.split("::")[0]
     tn = re.search(r"fn (kani_concrete_playback_\w+)", test)
-    if tn:
-        cmd2 = ["cargo", "kani", "playback", "-Z", "concrete-playback", "--", tn.group(1)]
-        try:
-            r2 = subprocess.run(cmd2, cwd=CRATE, env=env(), stdout=subprocess.PIPE, stderr=subprocess.STDOUT, text=True, timeout=900)
-            o2 = "\n".join(l for l in r2.stdout.split("\n") if "linker stdout" not in l)
-            wit["native_replay"] = {"cmd": " ".join(cmd2), "exit": r2.returncode, "tail": o2[-1500:],
-                                    "reproduced_natively": ("FAILED" in o2 or "panicked" in o2) and r2.returncode != 0}
-        except subprocess.TimeoutExpired:
-            wit["native_replay"] = {"note": "native replay timed out"}
-    open(pb, "w").write("// concrete playback tests are written here by the runner\n")
+    if tn and mod in PLAYBACK_MODS:
+        pb = os.path.join(GEN, f"playback_{mod}.rs")
+        with PLAYBACK_LOCK:
+            open(pb, "w").write(test + "\n")
+            cmd2 = ["cargo", "kani", "playback", "-Z", "concrete-playback", "--", tn.group(1)]
+            try:
+                r2 = subprocess.run(cmd2, cwd=CRATE, env=env(), stdout=subprocess.PIPE, stderr=subprocess.STDOUT, text=True, timeout=1200)
+                o2 = "\n".join(l for l in r2.stdout.split("\n") if "linker stdout" not in l)
+                wit["native_replay"] = {"cmd": " ".join(cmd2), "exit": r2.returncode, "tail": o2[-1500:],
+                                        "reproduced_natively": ("panicked" in o2 or "test result: FAILED" in o2) and "could not compile" not in o2}
+            except subprocess.TimeoutExpired:
+                wit["native_replay"] = {"note": "native replay timed out"}
+            open(pb, "w").write(PLAYBACK_EMPTY)
     return wit
 
 
